@@ -363,6 +363,9 @@ func registerNd(e *Engine) {
 		x.frozen = args[0].(*Term).IsTrue()
 		return nil
 	}
+	I[p+"Symbolic"] = func(x *Exec, caller *frame, fn *ssa.Function, args []Value) Value {
+		return x.ctx.Bool(true)
+	}
 	I[p+"Frozen"] = func(x *Exec, caller *frame, fn *ssa.Function, args []Value) Value {
 		return x.ctx.Bool(x.frozen)
 	}
